@@ -20,8 +20,12 @@ def _len_range(args):
     bad = []
     enc, dec = pdu.encodeLength, pdu.decodeLength
     for v in range(lo, hi):
-        e = enc(v)
-        if dec(e) != v or not (1 <= len(e) <= 4):
+        try:
+            e = enc(v)
+            ok = dec(e) == v and (1 <= len(e) <= 4)
+        except Exception:      # noqa -- an exception of the code under test is a verdict, not a harness error
+            ok = False
+        if not ok:
             bad.append(v)
             if len(bad) > 3:
                 break
@@ -31,9 +35,13 @@ def _len_range(args):
 def check_u16(ctx):
     n = 0
     for v in range(65536):
-        e = pdu.encode16Int(v)
         n += 1
-        if pdu.decode16Int(e) != v or len(e) != 2 or bytes(pdu.encode16Int(v)) != bytes(e):
+        try:
+            e = pdu.encode16Int(v)
+            ok = pdu.decode16Int(e) == v and len(e) == 2 and bytes(pdu.encode16Int(v)) == bytes(e)
+        except Exception:      # noqa
+            e, ok = b'', False
+        if not ok:
             _viol(ctx, 'u16-roundtrip', 'encode16Int/decode16Int(%d) -> %r' % (v, bytes(e)), ['u16', v])
             break
     return n, 65536
@@ -69,9 +77,13 @@ def _chars(args):
             continue
         s = chr(cp)
         n += 1
-        e = pdu.encodeString(s)
-        d, rest = pdu.decodeString(e)
-        if d != s or len(rest) or bytes(e) != len(s.encode()).to_bytes(2, 'big') + s.encode():
+        try:
+            e = pdu.encodeString(s)
+            d, rest = pdu.decodeString(e)
+            ok = d == s and not len(rest) and bytes(e) == len(s.encode()).to_bytes(2, 'big') + s.encode()
+        except Exception:      # noqa
+            ok = False
+        if not ok:
             bad.append(cp)
     return n, bad
 
@@ -87,16 +99,24 @@ def check_strings(ctx):
     for L in range(0, 3 if ctx.quick else 4):
         for t in itertools.product(g.ALPHA24, repeat=L):
             s = ''.join(t)
-            e = pdu.encodeString(s)
-            d, rest = pdu.decodeString(e + bytearray(b'\x00\x01'))
             n += 1
-            if d != s or bytes(rest) != b'\x00\x01' or bytes(pdu.encodeString(s)) != bytes(e):
+            try:
+                e = pdu.encodeString(s)
+                d, rest = pdu.decodeString(e + bytearray(b'\x00\x01'))
+                ok = d == s and bytes(rest) == b'\x00\x01' and bytes(pdu.encodeString(s)) == bytes(e)
+            except Exception:      # noqa
+                ok = False
+            if not ok:
                 _viol(ctx, 'string-roundtrip/short', repr(s), ['str', s])
     for s in g.length_class_strings():
-        e = pdu.encodeString(s)
-        d, rest = pdu.decodeString(e)
         n += 1
-        if d != s or len(rest) or len(e) != 2 + len(s.encode()):
+        try:
+            e = pdu.encodeString(s)
+            d, rest = pdu.decodeString(e)
+            ok = d == s and not len(rest) and len(e) == 2 + len(s.encode())
+        except Exception:      # noqa
+            ok = False
+        if not ok:
             _viol(ctx, 'string-roundtrip/length-class', 'byte length %d' % len(s.encode()), ['strlen', len(s.encode())])
     for s in ('a' * 65536, '€' * 21846, '\ud800', 'a\udfffb'):
         n += 1
@@ -104,6 +124,8 @@ def check_strings(ctx):
             pdu.encodeString(s)
         except (ValueError, TypeError):
             continue
+        except Exception:      # noqa
+            pass
         _viol(ctx, 'string-not-refused', 'encodeString accepted %d chars / %r' % (len(s), s[:2]), ['strbad', len(s)])
     return n, distinct
 
